@@ -234,6 +234,7 @@ Proof.
       eapply nth_error_In; eauto.
     + destruct (c_pend (cs s)); try reflexivity; now rewrite Hdo.
   - reflexivity.
+  - reflexivity.
 Qed.
 
 Lemma lreach_ext : forall P C b b' s, beh_agree C b b' -> lreach P C b s -> lreach P C b' s.
